@@ -166,12 +166,13 @@ pub fn run(args: &Args) -> Report {
         cases.push(Case { try_unbounded: true, max_k: 1, label, exec: Box::new(move |r| xfer::exec(&cfg, &or, r)) });
     }
     let plan = Plan {
-        ks: if thorough { vec![0, 1, 2, 3, 4] } else { vec![0, 1, 2, 3] },
+        ks: if thorough { vec![0, 1, 2, 3, 4] } else { vec![0, 1, 2] },
         env: 0,
         fault: 1,
-        total_wall: Duration::from_secs(if thorough { 900 } else { 20 }),
+        total_wall: Duration::from_secs(if thorough { 900 } else { 50 }),
         max_execs_per_case: if thorough { 3_000_000 } else { 200_000 },
         required_witnesses: xfer::W_CREDIT_ZERO | xfer::W_ACK_SENT | xfer::W_ALL_DONE | xfer::W_TWO_STREAMS_INTERLEAVED,
+        adaptive: thorough,
         witness_names: WITNESS_NAMES,
     };
     rep.rule = "psim: two real Multiplexor endpoints + their real task futures + application tasks over an in-memory WebSocket; every schedule (task polls, message deliveries) with at most k scheduling deviations from the canonical order is executed, per (rwnd,threshold) pair x link capacity x write/read script; an execution is distinct when its application-visible event log differs; states = distinct fingerprints of (ledger, link queues, flow tables)".into();
